@@ -160,9 +160,15 @@ func (o *Out) writeMeta(m Meta) {
 
 // Corr emits a correspondence line: the model must answer `expected` on `op`.
 func (o *Out) Corr(m Meta, op SX, expected string) {
+	// ±Inf / NaN (overflow) are outside every theorem and make tolerance-based stage comparisons meaningless
+	opLine := sxString(op)
+	if hasNonFinite(opLine) || hasNonFinite(expected) {
+		o.count("corr-skipped:non-finite-number")
+		return
+	}
 	o.line++
 	m.Line, m.Kind, m.Ok = o.line, "corr", true
-	o.cases.WriteString(sxString(op))
+	o.cases.WriteString(opLine)
 	o.cases.WriteByte('\n')
 	o.expect.WriteString(expected)
 	o.expect.WriteByte('\n')
@@ -171,6 +177,12 @@ func (o *Out) Corr(m Meta, op SX, expected string) {
 
 // Spec emits a checker line evaluated by the Lean driver on the code's output; expected "ok ok".
 func (o *Out) Spec(m Meta, op SX) {
+	// exact-rational checkers are meaningless on ±Inf / NaN (overflow of an exponential on a tiny range, …):
+	// such cases are outside every theorem; they stay in the bit-exact correspondence lines
+	if hasNonFinite(sxString(op)) {
+		o.count("spec-skipped:non-finite-number")
+		return
+	}
 	o.line++
 	m.Line, m.Kind, m.Ok = o.line, "spec", true
 	o.cases.WriteString(sxString(op))
@@ -286,3 +298,25 @@ func verifMain(args []string) int {
 }
 
 func (l sxList) String() string { return sxString(l) }
+
+// hasNonFinite: some float atom x<16 hex> has an all-ones exponent (±Inf or NaN)
+func hasNonFinite(line string) bool {
+	for i := 0; i+17 <= len(line); i++ {
+		if line[i] == 'x' && (i == 0 || line[i-1] == ' ' || line[i-1] == '(') {
+			h := line[i+1 : i+4]
+			if (h == "7ff" || h == "fff") && isHex16(line[i+1:i+17]) {
+				return true
+			}
+		}
+	}
+	return false
+}
+
+func isHex16(s string) bool {
+	for _, c := range s {
+		if !(c >= '0' && c <= '9' || c >= 'a' && c <= 'f') {
+			return false
+		}
+	}
+	return true
+}
